@@ -69,13 +69,17 @@ structure MesgTable where
   guard : Nat
   panics : List Nat
   markBound : Nat
-  /-- the struct has `DeveloperFields` (all but FileId, DeveloperDataId, FieldDescription) -/
+  /-- the struct has `DeveloperFields` (before /repo 72c2963: all but FileId, DeveloperDataId, FieldDescription) -/
   hasDev : Bool
   slots : List Slot
   deriving DecidableEq, Repr, Inhabited
 
 /-- seconds between `time.Time{}` (1 Jan of year 1) and the FIT epoch (31 Dec 1989 00:00:00 UTC), negated -/
 def zeroTime : Int := -62766662400
+
+/-- `t.Sub(epoch)` is a `time.Duration` (int64 nanoseconds) and saturates at `math.MaxInt64` ns: whole seconds of that.
+Only times later than the year 2282 meet it (outside the protocol's range, class `hasTimeBeyond`). -/
+def durSatSec : Int := 9223372036
 
 inductive SlotVal where
   | val (v : Value)
@@ -146,7 +150,7 @@ def boolValid : Value → Bool
 /-- the validity test of ToMesg and the value it builds: `none` = the field is not emitted -/
 def emit (s : Slot) (x : SlotVal) : Option Value :=
   match s.kind, x with
-  | .time, .time t => if t < 0 then none else some (.uint32 (t.toNat % 2 ^ 32))
+  | .time, .time t => if t < 0 then none else some (.uint32 ((min t durSatSec).toNat % 2 ^ 32))
   | .time, .val _ => none
   | _, .time _ => none
   | .scalar, .val v => if v = s.sentinel then none else some v
@@ -335,8 +339,10 @@ def hasForeign (T : MesgTable) (m : Message) : Bool := m.fields.any (foreign T)
 def hasStrayMark (T : MesgTable) (m : Message) : Bool := m.fields.any (strayMark T)
 
 /-- **what the property demands of message → struct → message**: as `typedNormal`, but every field the struct has no slot
-for is kept with the unknown fields (in order), and the expanded mark of EVERY known field is kept (the field is dropped
-when it is marked and expanded fields are not to be included). -/
+for is kept with the unknown fields (in order), the expanded mark of EVERY known field is kept (the field is dropped
+when it is marked and expanded fields are not to be included), and the developer fields are kept for EVERY message type
+("the same … developer fields": the structs of file_id, developer_data_id and field_description have no
+`DeveloperFields`, class `hasLostDev`, KF-C13-3). -/
 def typedNormalFull (T : MesgTable) (fac : Nat → Field) (o : Options) (m : Message) : Message :=
   { num := T.num
     fields := (T.slots.filterMap fun s =>
@@ -350,7 +356,7 @@ def typedNormalFull (T : MesgTable) (fac : Nat → Field) (o : Options) (m : Mes
             (if o.includeExpanded then some { fac s.num with value := v, isExpanded := true } else none)
           else some { fac s.num with value := v })
       ++ m.fields.filter (fun f => !stored T f || foreign T f)
-    devFields := if T.hasDev then m.devFields else [] }
+    devFields := m.devFields }
 
 /-! ### well-formedness of a table (decidable; kernel-checked on the regenerated tables) -/
 
@@ -394,14 +400,35 @@ def nodup : List Nat → Bool
   | a :: as => !as.contains a && nodup as
 
 /-- the table describes a sound generated file: slot numbers are distinct, below the guard, never panic; the guard
-is at most 256… and the bitmap bound covers every eligible number -/
+is at most 256… the bitmap bound covers every eligible number; the struct has `DeveloperFields` (since /repo 72c2963,
+the repair of KF-C13-3, every message type has) -/
 def MesgTable.wf (T : MesgTable) : Bool :=
   T.panics.isEmpty && T.guard ≤ 256 && nodup (T.slots.map (·.num)) &&
-  T.slots.all fun s => s.wf && s.readNum == s.num && s.num < T.guard && (!s.canExpand || s.num < T.markBound)
+  (T.slots.all fun s => s.wf && s.readNum == s.num && s.num < T.guard && (!s.canExpand || s.num < T.markBound)) &&
+  T.hasDev
 
-/-! ### structs on which struct → message → struct is the identity -/
+/-! ### struct → message → struct: what comes back, and the classes of structs on which it is not the struct itself
 
-/-- the slot content has the shape of its kind -/
+Every class is a decidable predicate of the table and the struct; what the code does on each was decided by running
+the real `ToMesg` / `NewXxx` (notes/model-notes-C13-C17.md, "classes of struct → message → struct") and by the property
+("… (times at whole-second resolution) … yields the same struct", C14: "the typed-message normalisation: invalid-valued
+fields omitted, fixed-length arrays padded"):
+
+| class | what comes back | status |
+|---|---|---|
+| `hasBoolOther`     a `typedef.Bool` holding 2..254            | 255 (`BoolInvalid`)                  | documented normalisation (typedef/bool.go: "other value should be treated as invalid 255") |
+| `hasPreEpoch`      a time before the FIT epoch, not `time.Time{}` | `time.Time{}`                     | normalisation: `datetime.ToUint32` = invalid before the epoch; invalid-valued fields are omitted |
+| `hasMarkOnInvalid` an expanded mark on an eligible slot that is not emitted (invalid content) | mark gone | normalisation: an omitted field carries no mark |
+| `hasTimeBeyond`    a time ≥ epoch + 2^32 − 1 s                  | amd64: 0xFFFFFFFF → `time.Time{}`; later times wrap mod 2^32 (`uint32(float64)` out of range is platform-defined in Go) | outside the quantifier: not a FIT date_time value |
+| `hasStrayBit`      a mark on a number that is not eligible (only `Reset` of a message with such a mark sets it) | mark gone | **defect**, struct-level face of KF-C13-2 |
+| `¬ unknownsOk`     an UnknownFields entry the message type would store (named, below the bound), or without FieldBase | stored into its slot / dropped / panic | outside the quantifier (UnknownFields: "fields that … are not defined") |
+| `¬ wellTyped`      —                                            | —                                    | not a Go value (slot content of another Go type, DeveloperFields on a struct without them, a bit beyond the bitmap) |
+
+Sub-second times are outside the property by its own words and have no place in the model's `SlotVal.time` (whole seconds);
+measured on the code: `uint32(t.Sub(epoch).Seconds())` — a float64 sum, truncated — gives the floor for small values and the
+NEXT second for e.g. epoch + 2^24 s + 0.999999999 s. -/
+
+/-- the slot content has the shape of its kind (Go: the field's static type) -/
 def shapeOk (s : Slot) (x : SlotVal) : Bool :=
   match s.kind, x with
   | .time, .time _ => true
@@ -411,24 +438,102 @@ def shapeOk (s : Slot) (x : SlotVal) : Bool :=
   | .fixed n, .val v => typeOf v == s.ptype && (match v with | .sliceString vs => vs.length == n | v => (elems v).length == n)
   | _, .val v => typeOf v == s.ptype
 
+/-- a `typedef.Bool` other than 0, 1, 255 -/
+def slotBoolOther (s : Slot) (x : SlotVal) : Bool :=
+  match s.kind, x with
+  | .bool, .val v => !boolValid v && v != s.dflt
+  | _, _ => false
+
+/-- a time before the FIT epoch that is not `time.Time{}` -/
+def slotPreEpoch (s : Slot) (x : SlotVal) : Bool :=
+  match s.kind, x with
+  | .time, .time t => t < 0 && t != zeroTime
+  | _, _ => false
+
+/-- a time the protocol's date_time cannot hold: epoch + 0xFFFFFFFF s (the invalid value itself) or later -/
+def slotTimeBeyond (s : Slot) (x : SlotVal) : Bool :=
+  match s.kind, x with
+  | .time, .time t => decide (2 ^ 32 - 1 ≤ t)
+  | _, _ => false
+
+def slotPairs (T : MesgTable) (st : Struct) : List (Slot × SlotVal) := T.slots.zip st.vals
+
+def hasBoolOther (T : MesgTable) (st : Struct) : Bool := (slotPairs T st).any fun p => slotBoolOther p.1 p.2
+def hasPreEpoch (T : MesgTable) (st : Struct) : Bool := (slotPairs T st).any fun p => slotPreEpoch p.1 p.2
+def hasTimeBeyond (T : MesgTable) (st : Struct) : Bool := (slotPairs T st).any fun p => slotTimeBeyond p.1 p.2
+
+/-- number `k` is an eligible slot whose content ToMesg emits -/
+def emitted (T : MesgTable) (st : Struct) (k : Nat) : Bool :=
+  (slotPairs T st).any fun p => p.1.num == k && p.1.canExpand && (emit p.1 p.2).isSome
+
+/-- the set bits of the bitmap -/
+def bitsOf (n : Nat) : List Nat := (List.range (n.log2 + 1)).filter n.testBit
+
+/-- an expanded mark (set with `MarkAsExpandedField`) on a slot whose content is invalid, i.e. not emitted -/
+def hasMarkOnInvalid (T : MesgTable) (st : Struct) : Bool := (bitsOf st.state).any fun k => eligible T k && !emitted T st k
+
+/-- a mark on a number `MarkAsExpandedField` refuses: only `Reset` records it (class of KF-C13-2) -/
+def hasStrayBit (T : MesgTable) (st : Struct) : Bool := (bitsOf st.state).any fun k => !eligible T k
+
+/-- what Go's type system guarantees of a struct value: one content of the right Go type per slot, no DeveloperFields
+where the struct has none, no bit beyond the `state` array's use (`Reset` and `MarkAsExpandedField` only touch numbers
+below the bound) -/
+def wellTyped (T : MesgTable) (st : Struct) : Bool :=
+  st.vals.length == T.slots.length && (slotPairs T st).all (fun p => shapeOk p.1 p.2) &&
+  (T.hasDev || st.dev.isEmpty) && (bitsOf st.state).all (· < T.markBound)
+
+/-- every entry of UnknownFields has a FieldBase and is unknown to the message type (number at or above the bound, or
+named "unknown"): it comes back into UnknownFields -/
+def unknownsOk (T : MesgTable) (st : Struct) : Bool := st.unknown.all fun f => f.base.isSome && !stored T f
+
+/-- the documented normalisation of one slot: a Bool other than 0/1 is invalid (255), a time before the epoch is invalid
+(`time.Time{}`) -/
+def normSlot (s : Slot) (x : SlotVal) : SlotVal :=
+  match s.kind, x with
+  | .bool, .val v => if boolValid v then x else .val s.dflt
+  | .time, .time t => if t < 0 then .time zeroTime else x
+  | _, _ => x
+
+/-- what the code (amd64) makes of a time beyond the protocol's range; the identity on every other content -/
+def wrapSlot (s : Slot) (x : SlotVal) : SlotVal :=
+  match s.kind, x with
+  | .time, .time t =>
+    if 2 ^ 32 - 1 ≤ t then
+      (if (min t durSatSec).toNat % 2 ^ 32 = uint32Invalid then .time zeroTime else .time ((min t durSatSec).toNat % 2 ^ 32 : Nat))
+    else x
+  | _, _ => x
+
+/-- the bitmap with only the bits that satisfy `p` -/
+def keepBits (n : Nat) (p : Nat → Bool) : Nat := ((bitsOf n).filter p).foldl (fun acc k => acc ||| (1 <<< k)) 0
+
+/-- **normDoc**: the struct after the documented normalisations only — Bool other than 0/1 → invalid, time before the
+epoch → `time.Time{}`, the mark of an eligible slot that is not emitted is dropped. This is what the property (with the
+typed-message normalisation) demands to come back. -/
+def normDoc (T : MesgTable) (st : Struct) : Struct :=
+  { st with
+    vals := (slotPairs T st).map fun p => normSlot p.1 p.2
+    state := keepBits st.state fun k => !eligible T k || emitted T st k }
+
+/-- **normStruct**: what DOES come back from `NewXxx(&s.ToMesg({Factory, IncludeExpandedFields: true}))`: `normDoc`, and
+in addition a time beyond the protocol's range wraps (platform-defined), a mark on a non-eligible number is lost. -/
+def normStruct (T : MesgTable) (st : Struct) : Struct :=
+  { st with
+    vals := (slotPairs T st).map fun p => wrapSlot p.1 (normSlot p.1 p.2)
+    state := keepBits st.state fun k => emitted T st k }
+
 /-- the content survives the trip: it is either valid or *the* invalid value of its kind; a time is a whole second
 in `[epoch, epoch + 2^32 - 2]` or `time.Time{}` -/
 def slotInRange (s : Slot) (x : SlotVal) : Bool :=
-  shapeOk s x &&
-  match s.kind, x with
-  | .time, .time t => t == zeroTime || (0 ≤ t && t < 2 ^ 32 - 1)
-  | .bool, .val v => boolValid v || v == s.dflt
-  | _, _ => true
+  shapeOk s x && !slotBoolOther s x && !slotPreEpoch s x && !slotTimeBeyond s x
 
-/-- `InRange`: slot contents in range; an expanded mark only on an eligible, emitted slot; every unknown field would
-again be recognised as unknown; no developer fields where the struct has none. -/
+/-- `InRange`: a Go value (`wellTyped`) in none of the classes above. -/
 def inRange (T : MesgTable) (st : Struct) : Bool :=
-  st.vals.length == T.slots.length &&
-  (T.slots.zip st.vals).all (fun p => slotInRange p.1 p.2) &&
-  (List.range (st.state.log2 + 1)).all (fun k => !st.state.testBit k ||
-    (T.slots.zip st.vals).any fun p => p.1.num == k && p.1.canExpand && (emit p.1 p.2).isSome) &&
-  st.unknown.all (fun f => f.base.isSome && !stored T f) &&
-  (T.hasDev || st.dev.isEmpty)
+  wellTyped T st && unknownsOk T st && !hasBoolOther T st && !hasPreEpoch T st && !hasTimeBeyond T st &&
+  !hasMarkOnInvalid T st && !hasStrayBit T st
+
+/-- class of the message direction (KF-C13-3, repaired in /repo 72c2963): the message carries developer fields and the
+struct has no `DeveloperFields` (formerly FileId, DeveloperDataId, FieldDescription; empty for every well-formed table) -/
+def hasLostDev (T : MesgTable) (m : Message) : Bool := !T.hasDev && !m.devFields.isEmpty
 
 /-- the factory knows every slot of the table under its number and with a name (true of the standard factory:
 checked on the regenerated tables) -/
